@@ -1,6 +1,10 @@
-(* Line-protocol driver around the extracted Gallina parser (PV.Model.RawParser.read_bes_raw_gen).
-   stdin : one case per line   <chk 0|1> <selmask> <n> w0 ... w(n-1)     (decimal; selmask as in native/rawdrv.cc)
-   stdout: one line per case   OK <json> | THROW <name> [arg] | OOB <kind> <index> | FUEL *)
+(* Line-protocol driver around the extracted Gallina model (PV.Model.RawParser / RawReader).
+   stdin : one case per line (decimal numbers; selmask as in native/rawdrv.cc)
+             <chk 0|1> <selmask> <n> w0 ... w(n-1)                                   read_bes_raw_gen on a word buffer
+             A <chk> <n_blocks> <per_batch> <selmask> <k> o1 .. ok <n> w0 .. w(n-1)   arrays_gen on the words of a file;
+                                                                                     o1..ok = completion order of the tasks
+             C <chk> <per_batch> <selmask> <nfiles> <n1> w.. <n2> w.. ...             concatenate_gen
+   stdout: one line per case   OK <json> | THROW <name> [arg] | OOB <kind> <index> | RTHROW <name> [args] | FUEL *)
 open Rawmodel
 let rec pos_of_int n = if n = 1 then XH else if n land 1 = 0 then XO (pos_of_int (n lsr 1)) else XI (pos_of_int (n lsr 1))
 let z_of_int n = if n = 0 then Z0 else if n > 0 then Zpos (pos_of_int n) else Zneg (pos_of_int (- n))
@@ -20,19 +24,42 @@ let ename = function
   | ERosFlag -> "ERosFlag" | ERosSpec n -> "ERosSpec " ^ string_of_int (int_of_z n) | ERobFlag -> "ERobFlag"
   | ERodFlag -> "ERodFlag" | EBadName -> "EBadName" | EBadDetId -> "EBadDetId" | EEnd -> "EEnd" | ERodRange -> "ERodRange"
 let kname = function OobRead -> "read" | OobBulk -> "bulk" | OobEraseFront -> "erase_front" | OobEraseBack -> "erase_back"
+let rec nat_of_int n = if n <= 0 then O else S (nat_of_int (n - 1))
+let rec take n l = if n = 0 then ([], l) else match l with x :: tl -> let (a, b) = take (n - 1) tl in (x :: a, b) | [] -> ([], [])
+let print_ok res =
+  let ds = List.map (fun (d, c) -> Printf.sprintf "[\"%s\",%s,%s]" (dname d) (zs c.offsets) (rows c.rows)) res.r_dets in
+  Printf.printf "OK {\"hdr\":%s,\"dets\":[%s]}\n" (rows res.r_hdr) (String.concat "," ds)
+let print_rres = function
+  | ROk res -> print_ok res
+  | RThrow (RAssert k) -> Printf.printf "RTHROW RAssert %d\n" (int_of_z k)
+  | RThrow ROsError -> print_string "RTHROW ROsError\n"
+  | RThrow RConcatEmpty -> print_string "RTHROW RConcatEmpty\n"
+  | RThrow (RParser e) -> Printf.printf "RTHROW RParser %s\n" (ename e)
+  | RThrow (RParserOOB (k, i)) -> Printf.printf "RTHROW RParserOOB %s %d\n" (kname k) (int_of_z i)
+  | ROutOfFuel -> print_string "FUEL\n"
 let () =
   try while true do
     let line = input_line stdin in
     if String.length line > 0 then begin
       let toks = List.filter (fun s -> s <> "") (String.split_on_char ' ' line) in
       match toks with
+      | "A" :: c :: nb :: pb :: m :: k :: rest ->
+        let (ord, rest) = take (int_of_string k) rest in
+        let order = List.map (fun s -> nat_of_int (int_of_string s)) ord in
+        let fw = List.map (fun s -> z_of_int (int_of_string s)) (List.tl rest) in
+        print_rres (arrays_gen (c = "1") (reader_fuel fw) fw (z_of_int (int_of_string nb)) (z_of_int (int_of_string pb))
+                      (names_of_mask (int_of_string m)) (fun _ -> order))
+      | "C" :: c :: pb :: m :: nf :: rest ->
+        let rec files k rest = if k = 0 then [] else
+          match rest with
+          | n :: tl -> let (ws, tl') = take (int_of_string n) tl in List.map (fun s -> z_of_int (int_of_string s)) ws :: files (k - 1) tl'
+          | [] -> [] in
+        print_rres (concatenate_gen (c = "1") (files (int_of_string nf) rest) (z_of_int (int_of_string pb)) (names_of_mask (int_of_string m)))
       | c :: m :: _n :: ws ->
         let buf = List.map (fun s -> z_of_int (int_of_string s)) ws in
         let r = read_bes_raw_gen (c = "1") (fuel_for buf) (names_of_mask (int_of_string m)) buf in
         (match r with
-         | Ok res ->
-           let ds = List.map (fun (d, c) -> Printf.sprintf "[\"%s\",%s,%s]" (dname d) (zs c.offsets) (rows c.rows)) res.r_dets in
-           Printf.printf "OK {\"hdr\":%s,\"dets\":[%s]}\n" (rows res.r_hdr) (String.concat "," ds)
+         | Ok res -> print_ok res
          | Throw e -> Printf.printf "THROW %s\n" (ename e)
          | OOB (k, i) -> Printf.printf "OOB %s %d\n" (kname k) (int_of_z i)
          | OutOfFuel -> print_string "FUEL\n")
